@@ -47,6 +47,12 @@ def build_zoo():
         PREFIX = 'q'
         ID = 7
 
+    class DomC(DomainS):               # class defaults on the "wrong" side of the cutoff
+        DTYPE_CUTOFF = 20
+
+    class DomD(DomainS):
+        SHORT_DOM_LEN = 10
+
     class CplxA(ComplexS):
         pass
 
@@ -78,7 +84,8 @@ def build_zoo():
            (StrandA, "S", None), (failing(StrandS, "StrandFailA", True), "S", "after"),
            (MacA, "M", None), (MacAA, "M", None), (failing(MacrostateS, "MacFailA", True), "M", "after"),
            (RxnA, "R", None), (failing(ReactionS, "RxnFailA", True), "R", "after"),
-           (failing(ReactionS, "RxnFailB", False), "R", "before")]
+           (failing(ReactionS, "RxnFailB", False), "R", "before"),
+           (DomC, "D", None), (DomD, "D", None)]
     for cls, kind, fail in zoo:
         ZOO.append(cls)
         KIND[cls] = kind
